@@ -638,7 +638,7 @@ func isParentClass(
 		return false
 	}
 
-	if frame == "" && slices.Contains(base.BuiltinClasses, class) {
+	if frame == "" && base.IsBuiltinClass(class) {
 		frame = "Builtin"
 	}
 
